@@ -66,6 +66,8 @@ def gen_txns(rnd):
         amt = round(rnd.choice([1, 1, 1, -1]) * rnd.choice([0.01, 5, 12.5, 99.99, 1234.56, 250000, 0.5]), 2)
         if rnd.random() < .03:
             amt = 0.0
+        elif rnd.random() < .06:
+            amt = rnd.choice([1, -1]) * rnd.choice([9.705, 0.004, 99.999, 1.0005, 12.345])      # three-decimal currencies, sub-cent fees
         t = {'amount': amt, 'tags': tags, 'merchant': m, 'category': cat_of[m][0], 'subcategory': cat_of[m][1],
              'date': datetime(rnd.choice([2024, 2025]), rnd.randint(1, 12), rnd.randint(1, 28)), 'description': m, 'raw_description': desc,
              'source': rnd.choice(['Amex', 'Chase', 'Amex', 'Src </script>']), 'location': rnd.choice([None, 'WA', 'Seattle, WA'])}
@@ -84,6 +86,20 @@ PATTERNS = ['contains("X")', 'regex("A|B")', 'UBER\\s(?!EATS)', 'contains(field.
             'startswith(field.code, "AB")', 'contains(big_word) and amount > 5', 'startswith( \'x\' )', 'anyof("A", "B", "C", "D")', 'anyof()',
             'contains("")', 'startswith("")', 'normalized("WHOLE FOODS")', 'fuzzy("STARBUCKS", 0.8)', '^(A|B', '(?i)x.*y', '[', 'A|B|C|D|E',
             'not contains("X") and STARTSWITH("Y")', 'len([r for r in orders if contains(r.item, "X")]) > 0', 'CONTAINS(description, \'a"b\')']
+
+def gen_txns_split_category(rnd):
+    """Merchants fed by two rules with different categories: the purchase in one category, a larger refund in another, so that no merchant nets
+    positive while a category does."""
+    out = []
+    for k, m in enumerate(rnd.sample(MERCH, rnd.randint(1, 3))):
+        buy = rnd.choice([20.0, 99.99, 5.0])
+        for cat, sub, amt in ((('Shopping', 'Online'), 'x', buy), (('Refunds', 'Returns'), 'y', -buy - rnd.choice([0.0, 0.0, 10.0]))):
+            out.append({'amount': amt, 'tags': [], 'merchant': m, 'category': cat[0], 'subcategory': cat[1],
+                        'date': datetime(2025, rnd.randint(1, 12), rnd.randint(1, 28)), 'description': m, 'raw_description': 'SPLIT %s %d' % (sub, k),
+                        'source': 'Amex', 'location': None})
+    rnd.shuffle(out)
+    return out, 0
+
 
 VIEWS = '''[All]
 description: everything </script> "quoted"
@@ -373,7 +389,7 @@ def run(rec, shard, nshards, t):
     tmp = tempfile.mkdtemp(prefix='vt-c12-')
     try:
         for i in range((1200 if t == 'quick' else 60000) // nshards):
-            txns, hostile = gen_txns(rnd)
+            txns, hostile = gen_txns(rnd) if rnd.random() > .04 else gen_txns_split_category(rnd)
             judge(rec, txns, hostile, rnd, tmp, with_views=rnd.random() < .5)
             if i < 1 and shard == 0:
                 rec.sample([dict(x, date=x['date'].isoformat()) for x in txns[:3]])
